@@ -58,6 +58,7 @@ type iFile struct {
 	Version  string
 	GV       string // value of global var GV_f<idx> ("" = none)
 	Shared   string // value of the overlapping global var SHARED ("" = none) (C09 only)
+	Dyn      bool   // global dynamic var DV_f<idx>: sh: pwd  (evaluated in the directory the include gives it)
 	Tasks    []*iTask
 	Includes []*iInc
 }
@@ -90,6 +91,7 @@ func genI(ch *vs.Choices, c09 bool, tier string) *iProg {
 		if c09 && ch.Bool(1, 2) {
 			f.Shared = fmt.Sprintf("shared-from-f%d", i)
 		}
+		f.Dyn = c09 && ch.Bool(1, 2)
 		nt := 1 + ch.Draw(3)
 		used := map[string]bool{}
 		for k := 0; k < nt; k++ {
@@ -201,6 +203,17 @@ func genI(ch *vs.Choices, c09 bool, tier string) *iProg {
 	if !c09 && ch.Bool(1, 20) {
 		p.Files[1+ch.Draw(nf-1)].Version = "3.1"
 	}
+	if !c09 && ch.Bool(1, 12) {
+		// a root task whose literal name equals <namespace>:<task> of one of the root's own includes
+		for _, inc := range p.Files[0].Includes {
+			if inc.Target > 0 && !inc.Flatten {
+				tf := p.Files[inc.Target]
+				tn := tf.Tasks[ch.Draw(len(tf.Tasks))].Name
+				p.Files[0].Tasks = append(p.Files[0].Tasks, &iTask{Name: inc.NS + ":" + tn})
+				break
+			}
+		}
+	}
 	return p
 }
 
@@ -217,8 +230,11 @@ func (p *iProg) allNS() []string {
 func (p *iProg) fileYAML(f *iFile) string {
 	var sb strings.Builder
 	fmt.Fprintf(&sb, "version: '%s'\n", f.Version)
-	if f.GV != "" || f.Shared != "" {
+	if f.GV != "" || f.Shared != "" || f.Dyn {
 		sb.WriteString("vars:\n")
+		if f.Dyn {
+			fmt.Fprintf(&sb, "  DV_f%d:\n    sh: pwd\n", f.Idx)
+		}
 		if f.GV != "" {
 			fmt.Fprintf(&sb, "  GV_f%d: %s\n", f.Idx, f.GV)
 		}
@@ -542,8 +558,16 @@ func iDump(e *task.Executor, dir string) string {
 		fmt.Fprintf(&sb, "  dir %s\n", vs.StripDir(ct.Dir, dir))
 	}
 	for k, v := range e.Taskfile.Vars.All() {
-		if strings.HasPrefix(k, "GV_") || k == "SHARED" {
-			fmt.Fprintf(&sb, "var %s=%v\n", k, v.Value)
+		if strings.HasPrefix(k, "GV_") || strings.HasPrefix(k, "DV_") || k == "SHARED" {
+			fmt.Fprintf(&sb, "var %s=%v dir=%s\n", k, v.Value, vs.StripDir(v.Dir, dir))
+		}
+	}
+	// the variables every task was given when its Taskfile was merged (copies made at merge time)
+	for name, t := range e.Taskfile.Tasks.All(nil) {
+		for k, v := range t.IncludedTaskfileVars.All() {
+			if strings.HasPrefix(k, "DV_") || k == "SHARED" {
+				fmt.Fprintf(&sb, "taskvar %s %s=%v dir=%s\n", name, k, v.Value, vs.StripDir(v.Dir, dir))
+			}
 		}
 	}
 	return sb.String()
